@@ -47,3 +47,22 @@ def minBy (cmp : α → α → Ordering) : List α → Option α
   | x :: xs => some (xs.foldl (fun m y => if cmp m y = .gt then y else m) x)
 
 end Semver
+
+namespace Semver
+
+/-- `a <= b` of `Ord for Version` -/
+def Version.leB (a b : Version) : Bool := cmpVersion a b != .gt
+
+/-- `slice::sort` on versions: a stable sort by `Ord` -/
+def sortVersions (l : List Version) : List Version := l.mergeSort Version.leB
+
+/-- one representative (the first) of every precedence class, in order of first occurrence -/
+def dedupFirst : List Version → List Version
+  | [] => []
+  | x :: xs => x :: (dedupFirst xs).filter (fun y => cmpVersion x y != .eq)
+
+/-- iteration order of a `BTreeSet<Version>` built by inserting the list left to right (`insert` keeps
+the element already present) -/
+def setOfVersions (l : List Version) : List Version := sortVersions (dedupFirst l)
+
+end Semver
